@@ -1,4 +1,12 @@
 import Holpy.C15.Model
 import Holpy.C15.Proofs.Basic
 import Holpy.C15.Proofs.Trace
-/-! C15 helper lemmas; the parts live in `Holpy/C15/Proofs/*.lean`. -/
+import Holpy.C15.Proofs.Trail
+import Holpy.C15.Proofs.Analyze
+import Holpy.C15.Proofs.TraceInv
+import Holpy.C15.Proofs.MainLoop
+import Holpy.C15.Proofs.Solver
+/-! C15 helper lemmas; the parts live in `Holpy/C15/Proofs/*.lean`:
+`Basic` (membership in `dedup`/`resolution` results), `Trace` (the trace checker is sound),
+`Trail` (invariant of `assigns`, `unit_propagate`), `Analyze` (`analyze_conflict`),
+`TraceInv` (invariant of `proofs`), `MainLoop`, `Solver` (`solve_cnf`). -/
